@@ -18,6 +18,7 @@ import jax.numpy as jnp
 import numpy as np
 
 from harness import exact, markov, priors
+from checks import l1common
 from harness.report import Report
 from probdiffeq import probdiffeq as pdq
 from probdiffeq._probdiffeq import estimators_and_losses as eal
@@ -146,6 +147,8 @@ def run(tier: str, seed: int) -> int:
     # prior samples on a grid: forward sequences with the exact IWP transitions (two-stage: IwpExact -> MarkovSeqExact)
     _prior_grid(rep, tier, rng, table)
     rep.extra["instances_dropped_for_32bit_overflow"] = len(dropped)
+    # wiring: samples of the solvers' posterior follow the stored backward chain, every draw with its own key (TLC on the tracing SSM)
+    l1common.run_consumers(rep, tier, seed, "sample", "sample-wiring")
     rep.assumptions = [
         "base draws are injected by replacing probdiffeq.backend.random.normal in the harness process (table lookup keyed by the PRNG key)",
         "the dense embedding of isotropic / block-diagonal pieces is done by the harness (coefficient-major order, law checked under C08)",
